@@ -219,28 +219,118 @@ def shuffle_keys(rng, values):
     return rng.shuffle([(k, sh(v)) for k, v in values])
 
 
+IALPHA = ["$", "{", "}", ".", "[", "]", '"', "\\", " ", "\t", "\n", "a", "b", "x", "_", "-", "+", "0", "1", "9",
+          "\x85", "\xa0", "\xc3", "${", "$$", "${a", '["', '"]', "[0]", "${a.b}", ".c", '["k.\\"q"]', "\\\"", "[]", '[""]', "[-]", "[+5]",
+          "[007]", "[1_0]", "[0x1]", "[9223372036854775807]", "[9223372036854775808]", "[-9223372036854775808]", "${}", "${ a}"]
+
+
+def gen_interp(rng):
+    """arbitrary text for the interpolation parser"""
+    t = "".join(rng.choice(IALPHA) for _ in range(1 + rng.below(10)))
+    return {"kind": "interp", "text": t.encode("latin-1").hex(), "want": None}
+
+
+def gen_interp_rt(rng):
+    """printable parts rendered with $$ / ${path}: the parser must give back exactly these parts"""
+    def name():
+        return "".join(rng.choice(["a", "b", "Z", "0", "_", "-", "é", "$", "]", '"', "\\"]) for _ in range(1 + rng.below(4)))
+
+    def key():
+        k = "".join(rng.choice(["a", ".", " ", '"', "\\", "[", "]", "}", "é", "$", "${", "\n"]) for _ in range(1 + rng.below(5)))
+        return k if not k.endswith("\\") else k + "x"
+
+    def path():
+        p = [("name", name()) if rng.chance(1, 2) else ("key", key())]
+        for _ in range(rng.below(4)):
+            j = rng.below(3)
+            p.append(("name", name()) if j == 0 else ("key", key()) if j == 1 else
+                     ("idx", rng.choice([0, 1, 7, 42, 9223372036854775807, -3])))
+        return p
+
+    parts = []
+    for _ in range(1 + rng.below(4)):
+        text = "".join(rng.choice(["", "a", " ", "$", "$$", "{", "}", "x.y", "é", "${"[:1]]) for _ in range(rng.below(4)))
+        parts.append((text, path() if rng.chance(3, 4) else None))
+    # normal form: a part without a reference only last, and then non-empty
+    norm, acc = [], ""
+    for t, p in parts:
+        if p is None:
+            acc += t
+        else:
+            norm.append((acc + t, p))
+            acc = ""
+    if acc:
+        norm.append((acc, None))
+    rendered = "".join(t.replace("$", "$$") + (G.render_path(p) if p is not None else "") for t, p in norm)
+    return {"kind": "interp", "text": rendered.encode("utf-8").hex(), "want": norm}
+
+
 def gen(rng, tier):
     n = 6000 if tier == "thorough" else 500
-    return [gen_program(rng, tier == "thorough") for _ in range(n)]
+    cases = [gen_program(rng, tier == "thorough") for _ in range(n)]
+    r = rng.fork("interp")
+    for _ in range(20000 if tier == "thorough" else 1500):
+        cases.append(gen_interp(r) if r.chance(1, 2) else gen_interp_rt(r))
+    return cases
+
+
+def w_parts(parts):
+    out = []
+    for t, p in parts:
+        tb = t if isinstance(t, bytes) else t.encode("utf-8")
+        if p is None:
+            out.append("(x%s none)" % tb.hex())
+        else:
+            accs = []
+            for k, v in p:
+                if k == "idx":
+                    accs.append("(idx %d)" % v)
+                else:
+                    vb = v if isinstance(v, bytes) else v.encode("utf-8")
+                    accs.append("(%s x%s)" % (k, vb.hex()))
+            out.append("(x%s (%s))" % (tb.hex(), " ".join(accs)))
+    return "(" + " ".join(out) + ")"
 
 
 def prepare(c):
+    if c.get("kind") == "interp":
+        return {"_h": "INTERP", "text": c["text"]}
     r = G.request(c)
     r["text2"] = G.render_env(c["def2"])
     return r
 
 
 def line(c, o):
+    if c.get("kind") == "interp":
+        if "panic" in o or "crash" in o or "parts" not in o:
+            return "(interp x%s () 99 () none)" % c["text"]
+        parts, strs = [], []
+        for p in o["parts"]:
+            if "path" in p:
+                parts.append((bytes.fromhex(p["text"]), [(k, (v if k == "idx" else bytes.fromhex(v))) for k, v in p["path"]]))
+                strs.append("x" + p["string"])
+            else:
+                parts.append((bytes.fromhex(p["text"]), None))
+        want = "none" if c["want"] is None else w_parts(c["want"])
+        return "(interp x%s %s %d (%s) %s)" % (c["text"], w_parts(parts), o["ndiags"], " ".join(strs), want)
     o2 = o.get("obs2") or {"crash": "missing"}
     return "(c02 %s %s (%s))" % (G.w_case(c, o), G.w_obs(o2), " ".join(c["claims"]))
 
 
 def describe(c):
+    if c.get("kind") == "interp":
+        return {"interpolation": bytes.fromhex(c["text"]).decode("latin-1"), "roundtrip_of": c["want"]}
     return {"yaml": G.render_env(c["def"]), "base": {n: G.render_env(e["def"]) for n, e in c["envs"].items()},
             "claims": c["claims"]}
 
 
 def shrink(c):
+    if c.get("kind") == "interp":
+        b = bytes.fromhex(c["text"])
+        if c["want"] is None:
+            for i in range(len(b)):
+                yield dict(c, text=(b[:i] + b[i + 1:]).hex())
+        return
     d = c["def"]
     for i in range(len(d["values"])):
         vals = d["values"][:i] + d["values"][i + 1:]
@@ -249,7 +339,11 @@ def shrink(c):
 
 def distribution(cases, r):
     d = {"with_errors": 0, "without_errors": 0, "claims": 0, "loaderr": 0, "crash_or_panic": 0}
+    d["interp_cases"] = sum(1 for c in cases if c.get("kind") == "interp")
+    d["interp_roundtrip_cases"] = sum(1 for c in cases if c.get("kind") == "interp" and c["want"] is not None)
     for c, o in zip(cases, r["obs"]):
+        if c.get("kind") == "interp":
+            continue
         if o.get("loaderr"):
             d["loaderr"] += 1
         elif "crash" in o or "panic" in o:
